@@ -76,6 +76,11 @@ def run(chk):
     hs = [H.random_script("B-rnd%d" % i, rnd, "B") for i in range(1600 if thorough else 40)] + H.stop_stories("B")
     n2, e2, rej2, k2, st2, hung = H.run_scripts(chk, hs, "B", "c18")
     c03.handle_rejections(chk, rej2, "B", cov)
+    # the pipeline's processing worker: closed input -> final tick -> stop flush -> stopped, whatever its age and whatever is open
+    # (Worker.tla StopTerminates / NothingHeldBack, trace validation of the real worker)
+    from checks import wkcommon
+    wn, wev = wkcommon.run(chk, random.Random(chk.seed + 37), thorough, "c18")
+    cov["worker_traces"] = wn
     # end to end: every upstream state x load x moment of the stop
     scripts = stop_scripts(rnd, 1000 if thorough else 0)
     if not thorough:
